@@ -202,6 +202,10 @@ def descs_struct(tier):
         yield space.to_desc(2, gates, outputs="all")
     for gates in space.circuits(1, 1, types=("nand", "xor", "not"), max_arity=2, consts=("0", "1"), min_gates=1):
         yield space.to_desc(1, gates, consts=("0", "1"), outputs="all")
+    # the single output IS a primary input
+    yield {"name": "ionly", "nodes": [["a", "input", [], True]]}
+    yield {"name": "io2", "nodes": [["a", "input", [], True], ["b", "input", [], False]]}
+    yield {"name": "io3", "nodes": [["a", "input", [], True], ["b", "input", [], False], ["g", "and", ["a", "b"], False]]}
     # the single output IS a constant (the super-circuit form must still reproduce it)
     for k in ("0", "1"):
         yield {"name": "konly", "nodes": [["k", k, [], True]]}
